@@ -421,6 +421,19 @@ Definition lookup_full_ok (p : nat * slookup) : bool :=
 Definition full_ok (e : eprog) : bool :=
   forallb lookup_full_ok (combine (seq 0 (length (e_gsub e))) (e_gsub e)).
 
+(* rules of one lookup do not contradict each other; nothing is asked of a contextual lookup here (its
+   inline rules are covered by full_ok: after the repairs, two contextual rules may map one glyph
+   differently) *)
+Definition wf_simple (sl : slookup) : bool := kind_eqb (sl_kind sl) KChain || wf_lookup sl.
+Definition wf_eprog_full (e : eprog) : bool := forallb wf_simple (e_gsub e) && forallb wf_lookup (e_gpos e).
+
+Lemma wf_eprog_full_of_wf : forall e, wf_eprog e = true -> wf_eprog_full e = true.
+Proof.
+  intros e H. unfold wf_eprog in H. apply andb_true_iff in H as [H1 H2]. unfold wf_eprog_full.
+  apply andb_true_iff. split; [|exact H2]. rewrite forallb_forall in *. intros sl Hs.
+  unfold wf_simple. rewrite (H1 sl Hs). apply orb_true_r.
+Qed.
+
 Section Program.
 Variable ilig : bool.
 Notation compile_chain := (compile_chain_g true true ilig).
@@ -504,7 +517,7 @@ Qed.
 
 (* one source lookup against the head of its block, given what nested calls do *)
 Lemma try_head : forall k sl rec recn,
-  nth_error all k = Some sl -> wf_lookup sl = true -> lookup_full_ok (k, sl) = true ->
+  nth_error all k = Some sl -> wf_simple sl = true -> lookup_full_ok (k, sl) = true ->
   (forall k', k' < k -> forall b c, rec (ot_index all k') b c = recn k' b c) ->
   anon_sem rec (anons_of k sl) (ot_index all k) ->
   forall before cur after,
@@ -533,10 +546,10 @@ Proof.
       apply Nat.ltb_lt. apply RO. exact Hk0.
   - assert (head_of k sl = simple_gsub sl) as E.
     { unfold head_of. destruct (sl_kind sl); try reflexivity. discriminate. }
-    rewrite E. apply try_simple_gsub; assumption.
+    rewrite E. apply try_simple_gsub; [|exact K]. unfold wf_simple in W. rewrite K in W. exact W.
 Qed.
 
-Hypothesis WF : forallb wf_lookup all = true.
+Hypothesis WF : forallb wf_simple all = true.
 Hypothesis FO : forallb lookup_full_ok (combine (seq 0 (length all)) all) = true.
 
 Lemma full_ok_nth : forall k sl, nth_error all k = Some sl -> lookup_full_ok (k, sl) = true.
@@ -548,7 +561,7 @@ Proof.
   eapply nth_error_In. exact N0.
 Qed.
 
-Lemma wf_nth : forall k sl, nth_error all k = Some sl -> wf_lookup sl = true.
+Lemma wf_nth : forall k sl, nth_error all k = Some sl -> wf_simple sl = true.
 Proof. intros k sl H. rewrite forallb_forall in WF. apply WF. eapply nth_error_In. exact H. Qed.
 
 (* nested application by lookup index agrees at every sufficient depth *)
@@ -614,10 +627,10 @@ Proof. induction l; intros a0; simpl; [reflexivity | apply IHl]. Qed.
 
 (* ---- the theorem ---------------------------------------------------------------------------------------------------- *)
 Theorem compile_preserves_inline_sm : forall ilig e sel s,
-  wf_eprog e = true -> full_ok e = true ->
+  wf_eprog_full e = true -> full_ok e = true ->
   apply_ot (compile_mini_g true true ilig e) sel s = interp_fea e sel s.
 Proof.
-  intros ilig e sel s W FO. unfold wf_eprog in W. apply andb_true_iff in W as [Wg Wp]. unfold full_ok in FO.
+  intros ilig e sel s W FO. unfold wf_eprog_full in W. apply andb_true_iff in W as [Wg Wp]. unfold full_ok in FO.
   unfold apply_ot, interp_fea, compile_mini_g.
   rewrite (lookups_blocks ilig (e_gsub e)). fold (LL ilig (e_gsub e)).
   destruct (build_features (map (fun '(k, ids) => (k, map (ot_index_g true true ilig (e_gsub e)) (gsub_ids ids))) (e_feats e)))
